@@ -48,7 +48,7 @@ Proof.
 Qed.
 
 Theorem model_passes_c05 s st oc0 rw0 :
-  inv s -> valid_step st -> (match st with Msg m => In (sender m) actors | NextBlock => True end) ->
+  inv s -> valid_step st -> actor_step st ->
   c05_step (height s) (obs_of s oc0 rw0) st
            (obs_of (fst (fst (exec_step s st))) (snd (fst (exec_step s st))) (snd (exec_step s st))) = 0.
 Proof.
@@ -62,7 +62,7 @@ Proof.
   { apply forallb_forall. intros d Hd. rewrite obal_obs_of; [|unfold obs_accts; simpl; tauto|exact Hd].
     apply Z.eqb_eq. exact (i_escrow _ I' d). }
   cbn [negb].
-  destruct st as [m|]; [|reflexivity]. destruct m as [ | |w pid d amt| | | ]; try reflexivity.
+  destruct st as [m|]; [|reflexivity]. destruct m as [ | |w pid d amt| | | | ]; try reflexivity.
   simpl in Hv, Hact. change (o_pools (obs_of s oc0 rw0)) with (pools s). destruct (get pid (pools s)) as [p|] eqn:Hg; [|reflexivity].
   destruct (get w (p_farmers p)) as [f|] eqn:Hf; [|reflexivity].
   destruct ((d =? p_lpt p) && (0 <=? amt) && (amt <=? f_locked f)) eqn:Hc; [|reflexivity].
